@@ -110,13 +110,25 @@ fn hash_outcome(parts: &[&dyn std::fmt::Debug]) -> u64 {
 struct Programs {
     lower_flat: Option<Ir>,
     lift_flat: Option<Ir>,
-    lower_mem: Ir,
-    lift_mem: Ir,
+    lower_mem: Option<Ir>,
+    lift_mem: Option<Ir>,
     kinds: Vec<WasmType>,
 }
 
+/// Which forms to exercise (C04 reuses the flat half only).
+#[derive(Clone, Copy, Debug)]
+pub struct Forms {
+    pub flat: bool,
+    pub mem: bool,
+}
+pub const ALL_FORMS: Forms = Forms { flat: true, mem: true };
+
 /// Check one type under one list policy. Findings are per class (first occurrence).
 pub fn check_type(env: &Env, i: usize, policy: ListPolicy, stats: &mut Stats) -> Vec<Finding> {
+    check_type_forms(env, i, policy, ALL_FORMS, stats)
+}
+
+pub fn check_type_forms(env: &Env, i: usize, policy: ListPolicy, forms: Forms, stats: &mut Stats) -> Vec<Finding> {
     let ty = &env.types[i];
     let wt = env.root(i);
     let resolve = env.resolve();
@@ -131,7 +143,7 @@ pub fn check_type(env: &Env, i: usize, policy: ListPolicy, stats: &mut Stats) ->
         }
         d
     };
-    let flat_ok = abi::flatten(ty, Width::W4).len() <= abi::MAX_FLAT_PARAMS;
+    let flat_ok = forms.flat && abi::flatten(ty, Width::W4).len() <= abi::MAX_FLAT_PARAMS;
 
     // ---- record
     let mut rec = |what: &str, r: Result<Ir, String>, out: &mut Vec<Finding>| -> Option<Ir> {
@@ -169,11 +181,8 @@ pub fn check_type(env: &Env, i: usize, policy: ListPolicy, stats: &mut Stats) ->
     } else {
         None
     };
-    let lower_mem = rec("lower_to_memory", ir_lower_mem(resolve, policy, &wt), &mut out);
-    let lift_mem = rec("lift_from_memory", ir_lift_mem(resolve, policy, &wt), &mut out);
-    let (Some(lower_mem), Some(lift_mem)) = (lower_mem, lift_mem) else {
-        return first_per_class(out);
-    };
+    let lower_mem = if forms.mem { rec("lower_to_memory", ir_lower_mem(resolve, policy, &wt), &mut out) } else { None };
+    let lift_mem = if forms.mem { rec("lift_from_memory", ir_lift_mem(resolve, policy, &wt), &mut out) } else { None };
     let kinds = if flat_ok {
         match vcommon::catch(|| gen::flat_types(resolve, &wt, None)) {
             Ok(Some(k)) => k,
@@ -296,6 +305,7 @@ fn run_value(
     }
 
     // ------------------------------------------------------------------ in memory
+    let (Some(p_lower_mem), Some(p_lift_mem)) = (&p.lower_mem, &p.lift_mem) else { return };
     for off in base_offsets(al) {
         for prefill in [0xA5u8, 0x5A] {
             stats.cases += 1;
@@ -309,7 +319,7 @@ fn run_value(
             let mut mem = VmMem::new(w, prefill);
             let region = mem.alloc(off + sz + 8, al.max(8), RegionKind::Harness);
             let addr = region + off;
-            let mut ex = Exec::new(&p.lower_mem, resolve, sizes, mem);
+            let mut ex = Exec::new(p_lower_mem, resolve, sizes, mem);
             let r = ex.run(&[V::Ptr(addr), V::Val(v.clone())], vec![], &mut NoHost);
             stats.vm_steps += ex.steps;
             stats.comparisons += 1;
@@ -337,7 +347,7 @@ fn run_value(
                     // (4) lift what was lowered
                     stats.comparisons += 1;
                     let mem = std::mem::replace(&mut ex.mem, VmMem::new(w, 0));
-                    let mut ex2 = Exec::new(&p.lift_mem, resolve, sizes, mem);
+                    let mut ex2 = Exec::new(p_lift_mem, resolve, sizes, mem);
                     match ex2.run(&[V::Ptr(addr)], vec![], &mut NoHost) {
                         Err(e) => fail(&format!("mem-roundtrip:{}", err_class(&e)), &form, e, out),
                         Ok(r) => match r.as_slice() {
@@ -352,7 +362,7 @@ fn run_value(
             stats.comparisons += 1;
             let mut mem = VmMem::new(w, prefill);
             mem.import(&rm);
-            let mut ex = Exec::new(&p.lift_mem, resolve, sizes, mem);
+            let mut ex = Exec::new(p_lift_mem, resolve, sizes, mem);
             match ex.run(&[V::Ptr(rroot + off)], vec![], &mut NoHost) {
                 Err(e) => fail(&format!("mem-lift:{}", err_class(&e)), &form, e, out),
                 Ok(r) => match r.as_slice() {
@@ -376,6 +386,10 @@ pub fn policies(ty: &Ty) -> Vec<ListPolicy> {
 
 /// All classes a single type shows (used by the minimiser and by replay).
 pub fn classes_of(ty: &Ty) -> Vec<Finding> {
+    classes_of_forms(ty, ALL_FORMS)
+}
+
+pub fn classes_of_forms(ty: &Ty, forms: Forms) -> Vec<Finding> {
     let env = match Env::new(std::slice::from_ref(ty)) {
         Ok(e) => e,
         Err(_) => return vec![],
@@ -383,7 +397,7 @@ pub fn classes_of(ty: &Ty) -> Vec<Finding> {
     let mut st = Stats::default();
     let mut out = Vec::new();
     for pol in policies(ty) {
-        out.extend(check_type(&env, 0, pol, &mut st));
+        out.extend(check_type_forms(&env, 0, pol, forms, &mut st));
     }
     first_per_class(out)
 }
